@@ -336,6 +336,13 @@ impl<'p> CoroutinePool<'p> {
             assert!(self.waits.insert(task_id, arc.clone()).is_none());
             arc
         };
+        if PoolState::Stopped == self.state() {
+            // stop() has already released the waiters it knew: nobody would ever wake this one
+            _ = self.waits.remove(&task_id);
+            return Ok(self
+                .try_take_task_result(task_id)
+                .unwrap_or(Err("The coroutine pool has stopped")));
+        }
         let (lock, cvar) = &*arc;
         drop(
             cvar.wait_timeout_while(
